@@ -300,6 +300,38 @@ func runC02(r *rep.Report, thorough bool) error {
 			return err
 		}
 		docs := reply["docs"].([]any)
+		// the round-trip theorem (Props/C02E2E.lean) on this program: inside its fragment, every
+		// strictly typed value is read back from its own document
+		rt, err := d.Call(map[string]any{"op": "c02.roundtrip", "env": a.Env, "wrappers": wrappersOf[id], "values": vals})
+		if err != nil {
+			return err
+		}
+		inFrag, _ := rt["inFragment"].(bool)
+		if inFrag {
+			r.Hist("round-trip-theorem:program-inside-the-fragment")
+		} else {
+			r.Hist("round-trip-theorem:program-outside-the-fragment")
+		}
+		if rv, ok := rt["values"].([]any); ok && inFrag {
+			for i, x := range rv {
+				m, _ := x.(map[string]any)
+				if typed, _ := m["wt"].(bool); !typed {
+					r.Hist("round-trip-theorem:value-not-strictly-typed")
+					continue
+				}
+				ln := lns[i]
+				r.Hist("round-trip-theorem:value-covered")
+				in := map[string]any{"case": id, "type": ln.Type, "value": ln.Val, "doc": ln.Doc, "sources": a.Case.Sources()}
+				if same, _ := m["same"].(bool); !same {
+					r.Disagree(rep.Disagreement{Tie: "c02.round-trip-theorem-instance", Input: in,
+						Model: "theorem C02_round_trip: decode (encode v) = some v", Impl: "the instance evaluates to something else (the driver is not the proved model)"})
+				}
+				if !ln.RoundTrip || ln.UnmarshalErr != "" || ln.Panic != "" {
+					r.Disagree(rep.Disagreement{Tie: "c02.round-trip-theorem-vs-real-round-trip", Input: in,
+						Model: "theorem C02_round_trip: a strictly typed value of a program in the fragment is read back from its document", Impl: "json.Unmarshal(json.Marshal(v)) with the generated wrappers does not give v back: " + ln.UnmarshalErr + ln.Panic})
+				}
+			}
+		}
 		for i, ln := range lns {
 			var real any
 			dec := json.NewDecoder(strings.NewReader(ln.Doc))
